@@ -5,7 +5,8 @@ from concurrent.futures import ThreadPoolExecutor
 
 VERIF = os.path.dirname(os.path.dirname(os.path.abspath(__file__)))
 REPO = os.environ.get("VERIF_REPO", "/repo")
-BUILD = os.path.join(VERIF, ".build")
+BUILD = os.environ.get("VERIF_BUILD") or os.path.join(VERIF, ".build")
+EVIDENCE_DIR = os.environ.get("VERIF_EVIDENCE_DIR") or os.path.join(VERIF, "evidence")
 NCPU = int(os.environ.get("VERIF_JOBS", "16"))
 
 
@@ -37,8 +38,12 @@ def build(flavor, harnesses):
     ensure_cfg()
     t0 = time.time()
     cmd = ["make", "-C", os.path.join(VERIF, "mk"), "-j%d" % NCPU, "FLAVOR=" + flavor, "REPO=" + REPO,
-           "VERIF=" + VERIF] + list(harnesses)
-    r = subprocess.run(cmd, stdout=subprocess.PIPE, stderr=subprocess.STDOUT, text=True)
+           "VERIF=" + VERIF, "BUILDROOT=" + BUILD] + list(harnesses)
+    import fcntl
+    os.makedirs(BUILD, exist_ok=True)
+    with open(os.path.join(BUILD, ".lock-" + flavor), "w") as lk:
+        fcntl.flock(lk, fcntl.LOCK_EX)   # concurrent checks share the library objects
+        r = subprocess.run(cmd, stdout=subprocess.PIPE, stderr=subprocess.STDOUT, text=True)
     if r.returncode != 0:
         log(r.stdout[-6000:])
         log("vlib: BUILD FAILED flavor=%s targets=%s" % (flavor, harnesses))
@@ -50,8 +55,11 @@ def build(flavor, harnesses):
 # ----------------------------------------------------------------- findings
 class Findings:
     def __init__(self):
-        p = os.path.join(VERIF, "known_findings.json")
-        self.entries = json.load(open(p))["findings"] if os.path.exists(p) else []
+        import glob
+        self.entries = []
+        for p in [os.path.join(VERIF, "known_findings.json")] + sorted(glob.glob(os.path.join(VERIF, "known_findings.d", "*.json"))):
+            if os.path.exists(p):
+                self.entries += json.load(open(p)).get("findings", [])
 
     def match(self, prop, key):
         """returns the `known` entry matching this violation key, else None.
@@ -329,9 +337,62 @@ def finish(res, tier, seed, rule, required=(), level="exploration", assumptions=
     cov.update(res.extra)
     ev = dict(property_id=prop, tier=tier, seed=int(seed), level=level, coverage=cov,
               assumptions=list(assumptions), wall_s=round(time.time() - res.t0, 2), violations=len(unknown))
-    os.makedirs(os.path.join(VERIF, "evidence"), exist_ok=True)
-    json.dump(ev, open(os.path.join(VERIF, "evidence", prop + ".json"), "w"), indent=1, sort_keys=True)
+    os.makedirs(EVIDENCE_DIR, exist_ok=True)
+    json.dump(ev, open(os.path.join(EVIDENCE_DIR, prop + ".json"), "w"), indent=1, sort_keys=True)
     print("%s %s tier=%s seed=%s evaluations=%d distinct_nontrivial=%d known=%d unlisted=%d inconclusive=%d wall=%.1fs" % (
         prop, {0: "HELD", 1: "VIOLATED", 2: "INCONCLUSIVE"}[rc], tier, seed, evaluations, len(res.hashes),
         len(known), len(unknown), len(res.inconclusive), time.time() - res.t0))
     return rc
+
+
+# ----------------------------------------------------------------- scripted jobs (python-side generators/oracles)
+def run_jobs(res, flavor, harness, jobs, timeout=900, env_extra=None, workers=None):
+    """Run the harness once per job (job = dict(args=[...], tag=str, plus anything the caller wants back)).
+    Returns [dict(job=job, rc=..., out=<stdout path>, err=<stderr path>, keys=[sanitizer keys])].
+    Sanitizer reports, assertion aborts and crashes are added to `res` as violations (replay carries the
+    job's args and any job['replay'] payload); timeouts are re-run once, then recorded as inconclusive.
+    STAT/SAMPLE/VIOL lines printed by the harness are merged as in run_harness; all other stdout lines are
+    left for the caller's oracle (read o['out'])."""
+    exe = os.path.join(BUILD, flavor, harness)
+    outdir = os.path.join(BUILD, "run", res.prop)
+    os.makedirs(outdir, exist_ok=True)
+    env = sanitizer_env(flavor)
+    if env_extra:
+        env.update(env_extra)
+    res.flavors.add(flavor)
+
+    def one(j):
+        cmd = [exe] + [str(a) for a in j["args"]]
+        o = _run_one(cmd, env, timeout, outdir, j["tag"])
+        if o["rc"] == "timeout":
+            log("vlib: job %s timed out; re-running once" % j["tag"])
+            o = _run_one(cmd, env, timeout * 2, outdir, j["tag"] + "-retry")
+        return o
+    with ThreadPoolExecutor(max_workers=workers or NCPU) as ex:
+        outs = list(ex.map(one, jobs))
+    ret = []
+    for j, o in zip(jobs, outs):
+        hf = os.path.join(outdir, j["tag"] + ".hash")
+        before = len(res.viol)
+        _merge(res, flavor, harness, j["args"], 0, o, hf, 0)
+        for v in res.viol[before:]:
+            if "replay" in j:
+                v["replay"] = dict(v["replay"], payload=j["replay"])
+        o["job"] = j
+        o["keys"] = [v["key"] for v in res.viol[before:]]
+        ret.append(o)
+    return ret
+
+
+def trace_lines(path, prefix):
+    """yield the remainder of every stdout line starting with `prefix `"""
+    with open(path, "r", errors="replace") as f:
+        for ln in f:
+            if ln.startswith(prefix + " "):
+                yield ln[len(prefix) + 1:].rstrip("\n")
+
+
+def workdir(prop):
+    d = os.path.join(BUILD, "run", prop)
+    os.makedirs(d, exist_ok=True)
+    return d
